@@ -23,6 +23,20 @@ Definition mmul (a b : mat) : mat :=
   flat_map (fun x => map (fun y => (erow x, ecol y, ewt x * ewt y))
                          (filter (fun y => Nat.eqb (erow y) (ecol x)) b)) a.
 
+(* scipy's products return matrices with duplicates summed and sorted indices *)
+Fixpoint minsert (e : entry) (l : mat) : mat :=
+  match l with
+  | [] => [e]
+  | y :: r =>
+      if Nat.eqb (erow e) (erow y) && Nat.eqb (ecol e) (ecol y)
+      then (erow y, ecol y, Qred (ewt e + ewt y)) :: r
+      else if Nat.ltb (erow e) (erow y) || (Nat.eqb (erow e) (erow y) && Nat.ltb (ecol e) (ecol y))
+           then e :: y :: r
+           else y :: minsert e r
+  end.
+Definition mcompress (a : mat) : mat := fold_right minsert [] a.
+Definition mprod (a b : mat) : mat := mcompress (mmul a b).
+
 Definition mshift (dr dc : nat) (a : mat) : mat :=
   map (fun e => ((erow e + dr)%nat, (ecol e + dc)%nat, ewt e)) a.
 
@@ -190,8 +204,8 @@ Section Updates.
     let mi := bdiag 0 0 bi in
     let s1 := set_projections true true
       {| sides := sides'; n_prim := n_prim s; n_sec := n_sec s;
-         p2m_int := mmul mi (p2m_int s); p2m_avg := mmul ma (p2m_avg s);
-         s2m_int := mmul mi (s2m_int s); s2m_avg := mmul ma (s2m_avg s);
+         p2m_int := mprod mi (p2m_int s); p2m_avg := mprod ma (p2m_avg s);
+         s2m_int := mprod mi (s2m_int s); s2m_avg := mprod ma (s2m_avg s);
          m2p_int := m2p_int s; m2p_avg := m2p_avg s;
          m2s_int := m2s_int s; m2s_avg := m2s_avg s |} in
     if check_mappings s1 then inr s1 else inl MValueErr.
